@@ -6,19 +6,17 @@ HERE = os.path.dirname(os.path.dirname(os.path.abspath(__file__)))
 BASE_OFF = ("cd /repo && env -u MATHY_CORE_VERIF /venv/bin/python -m pytest -ra -q -p no:cacheprovider "
             "--timeout=900 --continue-on-collection-errors")
 
-CHECKS = {
- # id: (technique, level text, level note, design_ref)
- "C14": ("runtime contracts on visit_*/get_*/to_list/find_* vs reference recursion over left/right; exhaustive shape workload",
-         "Every call of the three traversals and of the look-up methods made by the workload is decided by a monitor that "
-         "recomputes the defining order from the link structure; the workload drives every tree shape up to the bound, "
-         "every STOP position and every start node, so the claim is 'held on all shapes <= N nodes and on the random larger "
-         "ones observed', not a proof for all sizes.",
-         "Trusts CPython and our reference recursion; node classes are the repository's own.", "DESIGN.md 3/C14"),
- "C15": ("runtime contract on BinaryTreeNode.rotate (entry snapshot of in-order object sequence and links, exit audit); exhaustive shape workload",
-         "Every rotate() call (workload, and the associative rule's internal ones) is checked at exit against the in-order "
-         "sequence and links recorded at entry; all shapes up to the bound x all nodes are driven.",
-         "Trusts CPython and our link audit.", "DESIGN.md 3/C15"),
-}
+sys.path.insert(0, HERE)
+import importlib
+CHECKS = {}
+for n in range(1, 19):
+    try:
+        mod = importlib.import_module(f"vmon.props.c{n:02d}")
+    except ModuleNotFoundError:
+        continue
+    m = getattr(mod, "MANIFEST", None)
+    if m:
+        CHECKS[f"C{n:02d}"] = (m["technique"], m["text"], m["note"], m["ref"])
 NOT_YET = {}
 
 def main():
